@@ -286,6 +286,23 @@ def main():
                         return d.data_ptr()
                     if name == "clone" or out.dtype != args[0].dtype:
                         rec["aliases_source_payload"] = payload_ptr(out) == payload_ptr(args[0])
+                # the same quantized OBJECT fed again after its codes were overwritten in place (copy_ from a tensor of the same
+                # qtype / scale): the op must act on the current codes, i.e. give what a fresh tensor holding them gives
+                a0 = args[0] if args else None
+                if (isinstance(a0, QBytesTensor) and a0.axis is None and cls in ("move", "rescale", "sign", "requant", "dtype", "copy", "passthrough")
+                        and not name.endswith("_then_overwrite") and prog["seed"] % 3 == 0):
+                    try:
+                        with torch.no_grad():
+                            work = a0.clone()
+                            fn(work, *args[1:])  # first use of the object
+                            newvals = quantize_activation(torch.flip(a0.dequantize(), dims=[-1]) * 0.5, a0.qtype, a0._scale.clone())
+                            work.copy_(newvals)
+                            again = fn(work, *args[1:])
+                            fresh = fn(newvals.clone(), *args[1:])
+                        ca, cf = compare(again, deq(fresh)), None
+                        rec["reused_object_ok"] = bool(ca.get("exact", False)) if "struct" not in ca else False
+                    except Exception:  # noqa: BLE001
+                        pass
                 # min code of int8 inputs (the -128 case of neg)
                 mins = []
                 for a in args:
